@@ -98,6 +98,12 @@ def run(ctx):
                     if fro(utils.quat_matmat(utils.quat_hermitian(Qs), Qs) - utils.quat_eye(r)) > 1e-10: viol('C06:scaled:orthonormal', f'Q^H Q != I for the matrix scaled by {sname}', dict(inp, scale=sname))
                     if max([abs(Rs[i, j]) for i in range(r) for j in range(n) if i > j] or [0.0]) > 1e-12 * max(nA, 1e-300): viol('C06:scaled:triangular', f'R not triangular for the matrix scaled by {sname}', dict(inp, scale=sname))
                     ctx.count(('qr-scaled', m, n, cls, sname), True)
+            if cls == 'integer':
+                for lname, Al in qx.layouts(An):
+                    try: Ql, Rl = qsvd.qr_qua(Al)
+                    except Exception as e: viol('C06:memory-layout:raises', f'qr_qua raised {type(e).__name__} for a {lname} argument: {e}', dict(inp, layout=lname)); continue
+                    if fro(utils.quat_matmat(Ql, Rl) - An) > 1e-10 * sc or fro(utils.quat_matmat(utils.quat_hermitian(Ql), Ql) - utils.quat_eye(r)) > 1e-10: viol('C06:memory-layout', f'qr_qua is wrong for a {lname} argument', dict(inp, layout=lname))
+                    ctx.count(('qr-layout', m, n, lname), True)
             if m >= n and len(rec) == 1:
                 Qr, Rr = rec[0]
                 terms.append(f'({m}%nat, {n}%nat, {tmat(Qr)}, {tmat(Rr)}, {tqmat(Qm)}, {tqmat(Rm)})')
